@@ -10,7 +10,8 @@ What the code does NOT check is not checked here either (flag bits 3-4, `size <=
 cell data, the level bits of d1 unless hashes are stored).
 
 Python integer idioms are written arithmetically (identical on every natural number):
-`x >> 5 = x / 32`, `x & 7 = x % 8`, `x & 16 != 0  <->  x / 16 % 2 = 1`.
+`x >> 5 = x / 32`, `x & 7 = x % 8`, `x & 16 != 0  <->  x / 16 % 2 = 1`; the flag byte tests `flags_byte & 2^k` are
+`Nat.testBit flags_byte k`.
 A length test `data_len - i < k` (Python ints, `data_len - i` may be negative) is `data_len < i + k`.
 
 The cell constructor called on every record (`cls(bits, refs, type)`) is a parameter `mk`;
@@ -52,8 +53,8 @@ def readFlags (data : Bytes) : Option Flags :=
   if data.length < 4 then none
   else if pySlice data 0 4 == magicGeneric then
     (data[4]?).map fun fb =>
-      { generic := true, hasIdx := fb / 128 % 2 == 1, hasCrc := fb / 64 % 2 == 1, hasCacheBits := fb / 32 % 2 == 1,
-        flags := (fb / 16 % 2 * 16) * 2 + fb / 8 % 2 * 8, sizeBytes := fb % 8 }
+      { generic := true, hasIdx := fb.testBit 7, hasCrc := fb.testBit 6, hasCacheBits := fb.testBit 5,
+        flags := (if fb.testBit 4 then 16 else 0) * 2 + (if fb.testBit 3 then 8 else 0), sizeBytes := fb % 8 }
   else if pySlice data 0 4 == magicIdx then
     (data[4]?).map fun s =>
       { generic := false, hasIdx := true, hasCrc := false, hasCacheBits := false, flags := 0, sizeBytes := s }
